@@ -118,20 +118,37 @@ theorem validateFields_err (O : Oracles) (c : ClassOpts) (defaults kw : List (St
         | error e' => rw [hr] at h; simp at h; subst h; exact validateFields_err O c defaults kw rest e' hr
         | ok ys => rw [hr] at h; simp at h
 
-theorem dInline_err (v : PyVal) (k : List (String × PyVal) → R PyVal) (e : ErrCls)
-    (h : dInline v k = .error e) : OkErr e := by
+theorem dInline_err (v : PyVal) (drop : Bool) (k : List (String × PyVal) → R PyVal) (e : ErrCls)
+    (h : dInline v drop k = .error e) : OkErr e := by
   unfold dInline at h
   (repeat' split at h) <;> first | (cases h; exact Or.inr (Or.inl rfl)) | cases h
 
-theorem dClassRef_err (v : PyVal) (k : List (String × PyVal) → R PyVal) (e : ErrCls)
-    (hk : ∀ kw e', k kw = .error e' → OkErr e') (h : dClassRef v k = .error e) : OkErr e := by
+theorem dClassRef_err (v : PyVal) (drop : Bool) (pre : List (String × PyVal) → R Unit)
+    (k : List (String × PyVal) → R PyVal) (e : ErrCls)
+    (hp : ∀ kw e', pre kw = .error e' → OkErr e')
+    (hk : ∀ kw e', k kw = .error e' → OkErr e') (h : dClassRef v drop pre k = .error e) : OkErr e := by
   unfold dClassRef at h
   split at h
   · cases h
   · split at h
-    · cases h; exact Or.inl rfl
+    · split at h
+      · exact hk _ e h
+      · rcases hb : pre _ with e' | u <;> rw [hb] at h
+        · simp at h; subst h; exact hp _ e' hb
+        · simp at h; subst h; exact Or.inl rfl
     · exact hk _ e h
   · cases h; exact Or.inl rfl
+
+theorem dClassRef_dict_ok (kvs : List (PyVal × PyVal)) (drop : Bool) (pre : List (String × PyVal) → R Unit)
+    (k : List (String × PyVal) → R PyVal) (x : PyVal)
+    (h : dClassRef (.dict kvs) drop pre k = .ok x) : ∃ kw, k kw = .ok x := by
+  unfold dClassRef at h
+  simp only at h
+  split at h
+  · split at h
+    · exact ⟨_, h⟩
+    · rcases hb : pre (strKw kvs) with e' | u <;> rw [hb] at h <;> simp at h
+  · exact ⟨_, h⟩
 
 mutual
 theorem deser_err (O : Oracles) (opts : DeserOpts) : ∀ (f : FieldDecl) (ign : Bool) (v : PyVal) (e : ErrCls),
@@ -211,8 +228,13 @@ theorem deser_err (O : Oracles) (opts : DeserOpts) : ∀ (f : FieldDecl) (ign : 
     simp only [deser] at h
     have h2 := ite_none_err _ _ _ _ h
     split at h2
-    · exact dInline_err v _ e h2
-    · refine dClassRef_err v _ e (fun kw e' hk => ?_) h2
+    · exact dInline_err v _ _ e h2
+    · refine dClassRef_err v _ _ _ e (fun kw e' hk => ?_) (fun kw e' hk => ?_) h2
+      · cases hd : deserFields O opts c kw fields false with
+        | error e2 =>
+          rw [hd] at hk; simp at hk; subst hk
+          exact deserFields_err O opts c kw fields false e2 hd
+        | ok args => rw [hd] at hk; simp at hk
       cases hd : deserFields O opts c kw fields false with
       | error e2 =>
         rw [hd] at hk; simp at hk; subst hk
